@@ -175,3 +175,5 @@ func vfPickName(n int) string {
 	}
 	return "zz"
 }
+
+func vfQueuedLen(q *memberlist.TransmitLimitedQueue, i int) int { return 0 }
